@@ -407,4 +407,61 @@ def run(ctx):
                any(x[0] == "arg" and x[1] == 1 and any(f_ in pubs for f_ in x[2]) for x in pr.operand(c.args[0]))]
         ctx.check(len(aps) + len(inv) == 2 and len(ros) == len(aps) and used == {r.bb for r in ros}, "R20.5", fnkey(b) + "#no-readout-discarded", loc(b),
                   "readout()/append sites: %d/%d (+%d calls of a handed publish step); a readout whose result is not appended loses the swapped counters (and one on shutdown is required)" % (len(ros), len(aps), len(inv)))
+    # ------------------------------------------------------------------ R20.8 nothing can come between taking a readout and appending it
+    # a readout empties the counters it reports, so it exists only in the value it returns. From the place it is taken (also when it is
+    # taken inside a closure handed to a spawn function: the value then travels through a join handle) to the append of that value no
+    # path may reach a suspension point of the enclosing future or its end: a future that is dropped there - lost a `select`, task
+    # aborted, runtime shut down - takes the increments with it, and the sum of the readouts falls short of the total
+    from rules.c13 import logical_succ
+    n7 = 0
+    for b in F.all_bodies(MR):
+        if "::tests::" in b.path or "test_util" in b.path:
+            continue
+        takes = []
+        pr7 = Prov(b)
+        for c in b.calls():
+            if c.name == "readout" and (c.def_ or "").startswith(MR) and b.name != "readout":
+                # a body that hands the readout to its own caller (a capture helper, the closure of a spawn) takes nothing itself
+                if not c.dest.get("p") and (c.dest["l"] == 0 or ("call", c.bb) in pr7.local(0)):
+                    continue
+                takes.append((c, "readout()"))
+            elif c.name in ("spawn_blocking", "spawn", "spawn_local", "spawn_on", "block_in_place"):
+                for cl in closure_args(F, c):
+                    clp = Prov(cl)
+                    # the closure's value is the readout: it reaches this body only through the join handle
+                    if any(x.name == "readout" and (x.def_ or "").startswith(MR) and not x.dest.get("p") and
+                           (x.dest["l"] == 0 or ("call", x.bb) in clp.local(0)) for x in cl.calls()):
+                        takes.append((c, "readout() inside a closure handed to `%s`" % c.name))
+        if not takes:
+            continue
+        succ = logical_succ(b)
+        susp = {i_ for i_ in b.live_blocks() if b.term(i_)["k"] == "return" and any(
+            st_["k"] == "setdiscr" and str(st_.get("variant", "")).isdigit() and int(st_["variant"]) >= 3 for st_ in b.stmts(i_))}
+        ends = {i_ for i_ in b.live_blocks() if b.term(i_)["k"] == "return"} - susp
+        aps = {c.bb for c in b.calls() if c.is_trait_method("EntrySink", "append") or c.name == "append"}
+        for c, how in takes:
+            n7 += 1
+            if c.bb in aps:
+                ctx.ok("R20.8", fnkey(b) + "#readout-appended-without-suspension", loc(b, c.bb), "taken as the argument of the append")
+                continue
+            seen, work, hit = set(), [c.target] if c.target is not None else [], None
+            while work and hit is None:
+                x = work.pop()
+                if x in seen or b.is_cleanup(x):
+                    continue
+                seen.add(x)
+                if x in aps:
+                    continue
+                if x in susp:
+                    hit = (x, "a suspension point (`.await`)")
+                    break
+                if x in ends:
+                    hit = (x, "the end of the body")
+                    break
+                work += succ(x)
+            ctx.check(hit is None, "R20.8", fnkey(b) + "#readout-appended-without-suspension", loc(b, hit[0] if hit else c.bb),
+                      "between taking the readout (%s) and appending it the future can reach %s: if it is dropped there (it lost a `select` against the "
+                      "shutdown signal, the task was aborted, the runtime shut down) the counters that were swapped to zero are reported nowhere" % (how, hit[1] if hit else ""),
+                      "every path from the readout reaches the append first")
+    ctx.floor("R20.8", "places where a readout is taken outside the readout implementation", n7, 2)
     return EXPL
